@@ -14,7 +14,7 @@ Require Import Zrs.model.FseDec Zrs.gen.Generated Zrs.model.BitIO Zrs.model.BitR
 Require Import Zrs.model.FseDec Zrs.model.HufDec Zrs.proofs.C03_Desc Zrs.proofs.C03_HufTable.
 Require Import Zrs.model.FseEnc Zrs.proofs.C03_HufComplete Zrs.proofs.C03_HufStream Zrs.proofs.C03_FseStates.
 Require Import Zrs.model.Headers Zrs.model.FrameDec Zrs.proofs.C11_Reset Zrs.proofs.C03_FseBuild Zrs.proofs.C03_HufBuild Zrs.proofs.C03_Literals Zrs.proofs.C03_Sequences
-               Zrs.proofs.C03_Exec Zrs.proofs.C03_BlockTotal Zrs.proofs.C03_FrameTotal Zrs.proofs.C03_ApiTotal.
+               Zrs.proofs.C03_Exec Zrs.proofs.C03_BlockTotal Zrs.proofs.C03_FrameTotal Zrs.proofs.C03_ApiTotal Zrs.proofs.C03_AfterError.
 Open Scope Z_scope.
 
 Theorem C03_window_never_faults : forall k ops, (1 <= k)%nat -> Forall op_contract ops -> forall s, Inv s ->
@@ -225,6 +225,15 @@ Example C03_history_example :
   match fdec_decode_all fdec_new [40; 181; 47; 253; 32; 1; 9; 0; 0; 65] 10 with ROk (_, out) => out = [65] | _ => False end.
 Proof. split; [repeat constructor; cbn; lia|]. split; vm_compute; auto. Qed.
 
+(** ... and when a failing call leaves the decoder in ANY sound state (the real decoder is partly updated by a call that
+    fails; the run observes through a hook that what it is left with is sound -- each FSE table unset or consistent, the
+    Huffman table unset or complete -- after every call): every call comes with the decoder it leaves behind if it fails *)
+Theorem C03_no_history_panics_whatever_sound_state_errors_leave : forall ops d, dec_sound d ->
+  Forall (fun oe => call_ok (fst oe) /\ dec_sound (snd oe)) ops ->
+  match api_run_any d ops with ROk d' => dec_sound d' | RErr _ => True | RPanic _ => False end.
+Proof. exact api_run_any_never_panics. Qed.
+
+Print Assumptions C03_no_history_panics_whatever_sound_state_errors_leave.
 Print Assumptions C03_decode_all_never_panics.
 Print Assumptions C03_decode_from_to_never_panics.
 Print Assumptions C03_streaming_read_never_panics.
